@@ -239,6 +239,82 @@ func shapes(l []ast.Stmt) []string {
 	return out
 }
 
+// every statement of a function body in source order, nested blocks walked in place: simple
+// statements literally (one line), compound ones by their header (`if cond`, `for …`, `switch tag`,
+// `case …`)
+func flatStmts(fn *ast.FuncDecl) []string {
+	out := []string{}
+	if fn == nil || fn.Body == nil {
+		return out
+	}
+	ast.Inspect(fn.Body, func(n ast.Node) bool {
+		switch x := n.(type) {
+		case *ast.AssignStmt, *ast.IncDecStmt, *ast.ReturnStmt, *ast.BranchStmt, *ast.DeclStmt:
+			out = append(out, src1(x))
+		case *ast.ExprStmt:
+			sh := src1(x.X)
+			if !strings.HasPrefix(sh, "verifhook.") {
+				out = append(out, sh)
+			}
+		case *ast.IfStmt:
+			pre := "if "
+			if x.Init != nil {
+				pre += src1(x.Init) + "; "
+				out = append(out, pre+src1(x.Cond))
+				// the init statement is part of the header: do not list it again
+				ast.Inspect(x.Body, func(m ast.Node) bool { return true })
+				for _, st := range x.Body.List {
+					out = append(out, flatBlock(st)...)
+				}
+				if x.Else != nil {
+					out = append(out, "else")
+					out = append(out, flatBlock(x.Else)...)
+				}
+				return false
+			}
+			out = append(out, pre+src1(x.Cond))
+		case *ast.ForStmt:
+			h := "for"
+			if x.Init != nil {
+				h += " " + src1(x.Init) + ";"
+			}
+			if x.Cond != nil {
+				h += " " + src1(x.Cond)
+			}
+			if x.Post != nil {
+				h += "; " + src1(x.Post)
+			}
+			out = append(out, h)
+			for _, st := range x.Body.List {
+				out = append(out, flatBlock(st)...)
+			}
+			return false
+		case *ast.RangeStmt:
+			out = append(out, "for range "+src1(x.X))
+		case *ast.SwitchStmt:
+			out = append(out, "switch "+src1(x.Tag))
+		case *ast.TypeSwitchStmt:
+			out = append(out, "switch "+src1(x.Assign))
+		case *ast.CaseClause:
+			var l []string
+			for _, e := range x.List {
+				l = append(l, src1(e))
+			}
+			if len(l) == 0 {
+				out = append(out, "default")
+			} else {
+				out = append(out, "case "+strings.Join(l, ", "))
+			}
+		}
+		return true
+	})
+	return out
+}
+
+func flatBlock(st ast.Stmt) []string {
+	return flatStmts(&ast.FuncDecl{Body: &ast.BlockStmt{List: []ast.Stmt{st}}})
+}
+
 func init() {
 	Register("FlvFacts", func(e *Emitter) {
 		flvgo := Parse("av/format/flv/flv.go")
@@ -589,6 +665,78 @@ func init() {
 			}
 		}
 		e.P("def videoMetaReadyHevc : List String := %s", LeanStrList(vmrHevc))
+
+		// ---------- the marshalling code, statement by statement ----------
+		amfprim := Parse("av/format/amf/primitive.go")
+		amfobj := Parse("av/format/amf/object.go")
+		for _, m := range []struct {
+			lean string
+			f    *ast.File
+			recv string
+			fn   string
+		}{
+			{"marshalVideoData", vdgo, "VideoData", "Marshal"}, {"marshalVideoDataSize", vdgo, "VideoData", "MarshalSize"},
+			{"marshalAudioData", adgo, "AudioData", "Marshal"}, {"marshalAudioDataSize", adgo, "AudioData", "MarshalSize"},
+			{"marshalScriptData", sdgo, "ScriptData", "Marshal"},
+			{"newAvcRecord", vdgo, "", "NewAVCDecoderConfigurationRecord"},
+			{"marshalAvcRecord", vdgo, "AVCDecoderConfigurationRecord", "Marshal"}, {"marshalAvcRecordSize", vdgo, "AVCDecoderConfigurationRecord", "MarshalSize"},
+			{"newHevcRecord", vdgo, "", "NewHEVCDecoderConfigurationRecord"},
+			{"hevcRecordInit", vdgo, "HEVCDecoderConfigurationRecord", "init"}, {"hevcRecordApplyPLT", vdgo, "HEVCDecoderConfigurationRecord", "applyPLT"},
+			{"marshalHevcRecord", vdgo, "HEVCDecoderConfigurationRecord", "Marshal"}, {"marshalHevcRecordSize", vdgo, "HEVCDecoderConfigurationRecord", "MarshalSize"},
+			{"amfWriteAny", amfany, "", "WriteAny"}, {"amfWriteEcmaArray", amfobj, "", "WriteEcmaArray"},
+			{"amfWriteBool", amfprim, "", "WriteBool"}, {"amfWriteNumber", amfprim, "", "WriteNumber"},
+			{"amfWriteString", amfprim, "", "WriteString"}, {"amfWriteLongString", amfprim, "", "WriteLongString"},
+			{"amfWriteType", amfprim, "", "writeType"}, {"amfWriteUtf8", amfprim, "", "writeUtf8"},
+			{"tagSize", taggo, "Tag", "Size"},
+		} {
+			fd := FuncDecl(m.f, m.recv, m.fn)
+			if fd == nil {
+				e.Unknown(m.recv + "." + m.fn)
+			}
+			e.P("/-- %s.%s: every statement, in source order -/", m.recv, m.fn)
+			e.P("def %s : List String := %s", m.lean, LeanStrList(flatStmts(fd)))
+		}
+
+		// ---------- media/cache/flvcache.go: the time stamp of the replayed headers ----------
+		fcgo := Parse("media/cache/flvcache.go")
+		pushTo := FuncDecl(fcgo, "FlvCache", "PushTo")
+		cachePack := FuncDecl(fcgo, "FlvCache", "CachePack")
+		initDefs := localDefs(pushTo, "initTimestamp")
+		lastDefs := localDefs(cachePack, "cache.lastTimestamp")
+		var packShape []string
+		if cachePack != nil {
+			packShape = shapes(cachePack.Body.List)
+		} else {
+			e.Unknown("FlvCache.CachePack")
+		}
+		if pushTo == nil {
+			e.Unknown("FlvCache.PushTo")
+		}
+		stampNow := len(initDefs) == 2 && initDefs[0] == "cache.lastTimestamp" && initDefs[1] == "tag.Timestamp" &&
+			len(lastDefs) == 1 && lastDefs[0] == "tag.Timestamp"
+		if !stampNow && !(len(initDefs) == 2 && initDefs[0] == "uint32(0)" && initDefs[1] == "tag.Timestamp" && len(lastDefs) == 0) {
+			e.Unknown("FlvCache.PushTo initTimestamp: " + strings.Join(initDefs, " / ") + " ; lastTimestamp: " + strings.Join(lastDefs, " / "))
+		}
+		e.P("/-- media/cache/flvcache.go: FlvCache.PushTo — the definitions of initTimestamp, in order -/")
+		e.P("def flvCacheInitDefs : List String := %s", LeanStrList(initDefs))
+		e.P("/-- FlvCache.CachePack — the values assigned to cache.lastTimestamp -/")
+		e.P("def flvCacheLastDefs : List String := %s", LeanStrList(lastDefs))
+		e.P("/-- FlvCache.CachePack — the statements, in source order -/")
+		e.P("def flvCachePackShape : List String := %s", LeanStrList(packShape))
+		// the three header blocks of PushTo: a private copy is stamped and queued
+		var pushHeaders []string
+		if pushTo != nil {
+			for _, st := range pushTo.Body.List {
+				if is, ok := st.(*ast.IfStmt); ok && strings.HasPrefix(src1(is.Cond), "nil != cache.") {
+					pushHeaders = append(pushHeaders, src1(is.Cond))
+					pushHeaders = append(pushHeaders, shapes(is.Body.List)...)
+				}
+			}
+		}
+		e.P("/-- FlvCache.PushTo — the three header blocks: condition, then the statements -/")
+		e.P("def flvCachePushHeaders : List String := %s", LeanStrList(pushHeaders))
+		e.P("/-- PushTo stamps the replayed headers with the latest media tag's timestamp when no GOP is cached -/")
+		e.P("def cacheStampNow : Bool := %s", LeanBool(stampNow))
 
 		// ---------- service/flv: the client ends ----------
 		for _, sv := range []struct{ file, fn, recv, lean string }{
